@@ -390,7 +390,14 @@ func c15ManyTrips(c *Ctx) {
 	n := c15TripCounts[c.Free("trips", len(c15TripCounts))]
 	p := c.Free("pattern", len(c15Patterns))
 	w := c.Free("window", 3)
-	startOf := func(i int) time.Time { return c15S1.Add(time.Duration(i) * time.Minute) }
+	// the trips start around 1 700 000 000 s, or around 1 000 000 000 s where the decimal length of the
+	// start time (the head of the UID) changes: "sorted by UID" then differs from "sorted by start"
+	origin := c15S1
+	if c.Free("start_times_around_10^9_seconds", 2) == 1 {
+		origin = time.Unix(1000000000-int64(n/2)*60, 0).UTC()
+		c.Witness("uids_of_different_decimal_length")
+	}
+	startOf := func(i int) time.Time { return origin.Add(time.Duration(i) * time.Minute) }
 	idOf := func(i, k int) string { return fmt.Sprintf("%06d_L..N%d", (i*7+k)%1000000, i%7) } // the prefix changes from feed to feed, the suffix does not
 	uidOf := func(i int) string { return fmt.Sprintf("%d_L..N%d", startOf(i).Unix(), i%7) }
 	var feeds []*gtfs.Realtime
@@ -403,7 +410,7 @@ func c15ManyTrips(c *Ctx) {
 				continue
 			}
 			stop := "A"
-			day := time.Date(2023, 11, 14, 0, 0, 0, 0, time.UTC)
+			day := time.Date(startOf(0).Year(), startOf(0).Month(), startOf(0).Day(), 0, 0, 0, 0, time.UTC)
 			trip := gtfs.Trip{ID: gtfs.TripID{ID: idOf(i, k), RouteID: "L", DirectionID: gtfs.DirectionID_True, HasStartDate: true, StartDate: day, HasStartTime: true, StartTime: startOf(i).Sub(day)},
 				StopTimeUpdates: []gtfs.StopTimeUpdate{{StopID: &stop}}, IsEntityInMessage: true}
 			if st >= 2 {
@@ -420,7 +427,7 @@ func c15ManyTrips(c *Ctx) {
 	case 2:
 		hi = startOf(n / 2)
 	}
-	desc := fmt.Sprintf("%d trips, pattern %q, window %d", n, c15Patterns[p], w)
+	desc := fmt.Sprintf("%d trips starting at %d.., pattern %q, window %d", n, startOf(0).Unix(), c15Patterns[p], w)
 	c.Input(hash64(desc), true, func() string { return desc })
 	j, ok := buildJournalGuarded(c, feeds, lo, hi)
 	if !ok {
@@ -496,7 +503,7 @@ func init() {
 	register(&Check{
 		ID:    "C15",
 		Level: "model_checking",
-		Rule: "9 / 65 / 257 / 1025 trips over three feeds in 4 appearance patterns x 3 windows against per-trip accounting; three trip identities (T1, T2 share start instant and id suffix -> one UID; T3 other suffix and start) each per feed in {absent, unassigned, vehicle v1, vehicle v2} (T1 also: vehicle v1 with an empty update list) = 80 feed symbols (96 with a vehicle without id for T1, in histories of <= 2, thorough 3), the start date carried in a different *time.Location from feed to feed; ALL histories of <= 3 feeds (thorough <= 4) x 8 windows (incl. bounds with a sub-second part), histories of <= 2 (thorough 3) feeds additionally under 4 feed-time schemes (60 s apart, all equal, no timestamps, decreasing); plus a fourth identity T4 (same trip id and start date as T1, another start time) in {absent, unassigned, v1}: 240 symbols, ALL histories of <= 2 (thorough 3) feeds x 8 windows (incl. bounds with a sub-second part); " +
+		Rule: "9 / 65 / 257 / 1025 trips over three feeds in 4 appearance patterns x 3 windows x start times around 1.7e9 s or straddling 1e9 s (UIDs of 9 and 10 digits) against per-trip accounting; three trip identities (T1, T2 share start instant and id suffix -> one UID; T3 other suffix and start) each per feed in {absent, unassigned, vehicle v1, vehicle v2} (T1 also: vehicle v1 with an empty update list) = 80 feed symbols (96 with a vehicle without id for T1, in histories of <= 2, thorough 3), the start date carried in a different *time.Location from feed to feed; ALL histories of <= 3 feeds (thorough <= 4) x 8 windows (incl. bounds with a sub-second part), histories of <= 2 (thorough 3) feeds additionally under 4 feed-time schemes (60 s apart, all equal, no timestamps, decreasing); plus a fourth identity T4 (same trip id and start date as T1, another start time) in {absent, unassigned, v1}: 240 symbols, ALL histories of <= 2 (thorough 3) feeds x 8 windows (incl. bounds with a sub-second part); " +
 			"non-trivial = distinct histories of >= 2 feeds; oracle = reference accountant compared field by field (UID, id fields, vehicle, last observed, marked past, update count, stop-level marks), order and uniqueness included",
 		Assumptions: []string{"feeds list their trips in identifier order, as ParseRealtime produces them", "feed times are 60 s apart starting at a fixed instant"},
 		Scenarios: func(tier string) []*Scenario {
